@@ -293,3 +293,54 @@ func verif_harness_C09_encoder_marshal_fault() {
 		verif_assert(dec.Decode(&r) == io.EOF, "C09.enc.nothing-but-the-successful-records")
 	}
 }
+
+// C09 (b4) — records already returned stay what they were: a stream of three
+// records (JSON or CSV) followed by a torn tail is decoded to its end; after
+// the decoder has read the later lines and the tail, every returned record
+// still equals the one written — no string or body of an earlier record shares
+// storage with the decoder's line buffer.
+//
+//verif:harness unwind=64
+func verif_harness_C09_returned_records_stay_intact() {
+	results := []Result{
+		{Attack: "a", Seq: 0, Code: 200, Timestamp: time.Unix(0, 1700000000123456789), Latency: 1500, BytesOut: 3, BytesIn: 5, Body: []byte("hello"), Method: "GET", URL: "http://x/"},
+		{Attack: "b", Seq: 1, Code: 0, Timestamp: time.Unix(0, 1700000000223456789), Latency: 7, Error: "refused", Method: "PUT", URL: "http://y/"},
+		{Attack: "c", Seq: 2, Code: 204, Timestamp: time.Unix(0, 1700000000323456789), Latency: 9, Body: []byte("olleh"), Method: "POS", URL: "http://z/"},
+	}
+	csvFormat := verif_choose("format", 2) == 0
+	w := &verifRecWriter{}
+	var enc Encoder
+	if csvFormat {
+		enc = NewCSVEncoder(w)
+	} else {
+		enc = NewJSONEncoder(w)
+	}
+	for k := range results {
+		verif_assert(enc.Encode(&results[k]) == nil, "C09.enc.no-error")
+	}
+	data := w.all()
+	if !csvFormat {
+		// a torn tail: the start of a fourth record
+		data = append(data, data[:1+verif_choose("torn_tail_bytes", 40)]...)
+	}
+	var dec Decoder
+	if csvFormat {
+		dec = NewCSVDecoder(bytes.NewReader(data))
+	} else {
+		dec = NewJSONDecoder(bytes.NewReader(data))
+	}
+	var got []Result
+	for {
+		var r Result
+		if dec.Decode(&r) != nil {
+			break
+		}
+		got = append(got, r)
+	}
+	verif_assert(len(got) == len(results), "C09.intact.exactly-the-complete-records")
+	for k := 0; k < len(got) && k < len(results); k++ {
+		a, b := got[k], results[k]
+		verif_assert(a.Attack == b.Attack && a.Seq == b.Seq && a.Code == b.Code && a.Method == b.Method && a.URL == b.URL && a.Error == b.Error && bytes.Equal(a.Body, b.Body),
+			"C09.intact.earlier-records-unchanged-by-later-reads")
+	}
+}
